@@ -631,7 +631,7 @@ static void run_apply_kind(Out& out, const std::string& kind, uint64_t elemseed,
         // that a regression shows up as the outcome CRASH instead of killing the harness.  Expected
         // now: no copies, the original left without repetition.
         out.count("apply:zero-count");
-        impl = in_child([&](FILE* o) { fprintf(o, "%s", apply_text(el, before).c_str()); }, 10);
+        impl = in_child([&](FILE* o) { fprintf(o, "%s", apply_text(el, before).c_str()); }, 30);
         if (impl.compare(0, 5, "CRASH") == 0) impl = "CRASH";
         out.I(id, impl);
         out.P(id, impl == "n=0 orig=N;" + before.pos + ";= copies=-"
